@@ -141,6 +141,60 @@ struct Run<'a> {
     reported: std::cell::RefCell<std::collections::HashSet<u32>>,
 }
 
+/// `recording an undeclared field is ignored`: value sets built by hand (`FieldSet::value_set`)
+/// whose keys come from two callsites, handed to `Span::new`, `Span::record_all` and
+/// `Event::dispatch`.  Every position of the foreign key (first, middle, last, all).
+fn mixed_value_sets(col: &Arc<RecCollector>, out: &mut Out) -> Result<(), Value> {
+    use tracing::field::Empty;
+    let sa = tracing::span!(tracing::Level::ERROR, "c10_mix_a", foo = Empty, bar = Empty, baz = Empty);
+    let sb = tracing::span!(tracing::Level::ERROR, "c10_mix_b", foo = Empty, bar = Empty, baz = Empty);
+    col.take();
+    let (Some(ma), Some(mb)) = (sa.metadata(), sb.metadata()) else {
+        return Ok(());
+    };
+    let names = ["foo", "bar", "baz"];
+    let fa: Vec<tracing_core::Field> = names.iter().map(|n| ma.fields().field(n).expect("HARNESS: field")).collect();
+    let fb: Vec<tracing_core::Field> = names.iter().map(|n| mb.fields().field(n).expect("HARNESS: field")).collect();
+    let vals: [u64; 3] = [11, 22, 33];
+    // bit i of `mask` set = key i is taken from the OTHER callsite
+    for mask in 0u8..8 {
+        let keys: Vec<&tracing_core::Field> = (0..3).map(|i| if mask >> i & 1 == 1 { &fb[i] } else { &fa[i] }).collect();
+        let arr = [
+            (keys[0], Some(&vals[0] as &dyn tracing::field::Value)),
+            (keys[1], Some(&vals[1] as &dyn tracing::field::Value)),
+            (keys[2], Some(&vals[2] as &dyn tracing::field::Value)),
+        ];
+        let vs = ma.fields().value_set(&arr);
+        let want: Vec<(String, u64)> = (0..3).filter(|i| mask >> i & 1 == 0).map(|i| (names[i].to_string(), vals[i])).collect();
+        let seen = |fields: &Vec<Seen>| -> Vec<(String, u64)> {
+            fields.iter().map(|s| (s.name.clone(), if let Rec::U64(v) = &s.rec { *v } else { u64::MAX })).collect()
+        };
+        let mut check = |what: &str, got: Vec<Got>, pick: &dyn Fn(&Got) -> Option<Vec<(String, u64)>>| -> Result<(), Value> {
+            out.evals += 1;
+            out.count("mixed_callsite_value_sets_judged", 1);
+            let visited: Vec<Vec<(String, u64)>> = got.iter().filter_map(pick).collect();
+            if visited.len() != 1 || visited[0] != want {
+                return Err(json!({"through": what, "keys_from_the_other_callsite(bitmask foo,bar,baz)": mask,
+                                  "expected_visits": format!("{want:?}"), "observed": format!("{visited:?}"),
+                                  "ValueSet::len": vs.len(), "ValueSet::is_empty": vs.is_empty()}));
+            }
+            Ok(())
+        };
+        if vs.len() != want.len() || vs.is_empty() != want.is_empty() {
+            return Err(json!({"through": "ValueSet::len / is_empty", "mask": mask, "len": vs.len(), "is_empty": vs.is_empty(), "declared_keys_with_values": want.len()}));
+        }
+        let s = tracing::Span::new(ma, &vs);
+        check("Span::new", col.take(), &|g| if let Got::NewSpan { fields, .. } = g { Some(seen(fields)) } else { None })?;
+        sa.record_all(&vs);
+        check("Span::record_all", col.take(), &|g| if let Got::Record { fields, .. } = g { Some(seen(fields)) } else { None })?;
+        tracing::Event::dispatch(ma, &vs);
+        check("Event::dispatch", col.take(), &|g| if let Got::Event { fields, .. } = g { Some(seen(fields)) } else { None })?;
+        drop(s);
+        col.take();
+    }
+    Ok(())
+}
+
 impl Run<'_> {
     fn group(&self, cfg: Cfg, cases: &[&'static Case], out: &mut Out) {
         let col = Arc::new(RecCollector::new(cfg));
@@ -159,6 +213,12 @@ impl Run<'_> {
         tracing_core::dispatch::with_default(&disp, || {
             let p = tracing::span!(tracing::Level::ERROR, "c10_parent");
             col.take();
+            if matches!(cfg, Cfg::Always) {
+                if let Err(w) = mixed_value_sets(&col, out) {
+                    out.violation("a hand-built value set whose keys mix two callsites: the keys of the other callsite are undeclared fields and must be ignored, the declared ones visited once each in order", w);
+                    return;
+                }
+            }
             for case in cases {
                 let mut forms_done = false;
                 for j in 0..self.vectors {
